@@ -13,6 +13,7 @@ import (
 	"github.com/go-kid/ioc/component_definition"
 	"github.com/go-kid/ioc/configure/loader"
 	"github.com/go-kid/ioc/container/processors"
+	"github.com/go-kid/ioc/definition"
 	"github.com/go-kid/ioc/syslog"
 	"pgregory.net/rapid"
 	"verif/harness/kit"
@@ -595,5 +596,76 @@ func TestStaticDiamondEmbedding(t *testing.T) {
 			t.Fatalf("C11: the custom tag processor received the field Cus %d times, it is declared in 2 embedded copies (%v)", n, pp.seen)
 		}
 		kit.Rec.Case(fmt.Sprintf("static diamond Diamond{Left{Common} Right{Common R} Top} round %d", round%2), true, "static-diamond")
+	}
+}
+
+
+// ---- one field name at two depths; a lazy component with tagged fields ---------------------------
+
+type ShInner struct {
+	Name string   `value:"inner"`
+	Dep  zoo.IAll `wire:"n1"`
+	Cus  string   `mytag:"vi,arg=x y"`
+}
+type ShadowTagged struct {
+	ShInner
+	Name string `value:"outer"` // same name, shallower, other value
+	Cus  string `mytag:"vo"`
+}
+type ShadowUntagged struct {
+	ShInner
+	Name string   // same name, shallower, NOT tagged: the embedded one must still be processed
+	Dep  zoo.IAll // untagged: stays nil
+}
+
+type LazyTagged struct {
+	definition.LazyInitComponent
+	Dep zoo.IAll `wire:"n1"`
+	Val string   `value:"lit"`
+	Cus string   `mytag:"v1,arg=x y"`
+}
+type lazyDeep struct {
+	definition.LazyInitComponent
+}
+type LazyTaggedDeep struct {
+	lazyDeep
+	Dep zoo.IAll `wire:"n1"`
+	Val string   `value:"lit"`
+}
+
+func TestStaticShadowAndLazy(t *testing.T) {
+	kit.Rec.Rule(rule)
+	for round := 0; round < 10; round++ {
+		st, su, lt, ld := &ShadowTagged{}, &ShadowUntagged{}, &LazyTagged{}, &LazyTaggedDeep{}
+		pp := &CustomPP{}
+		comps := append(providers(), st, su, lt, ld, pp, newScan())
+		out := kit.RunApp(app.SetComponents(comps...), app.SetConfigLoader(loader.NewRawLoader([]byte(cfg))))
+		if !out.OK() {
+			t.Fatalf("C11: start failed: %v", out)
+		}
+		fail := func(f string, a ...any) {
+			msg := fmt.Sprintf(f, a...)
+			kit.DumpReplay("c11-shadow-lazy", map[string]any{"message": msg})
+			t.Fatalf("C11: %s", msg)
+		}
+		if st.Name != "outer" || st.ShInner.Name != "inner" || st.Cus != "custom:vo" || st.ShInner.Cus != "custom:vi" || st.ShInner.Dep == nil {
+			fail("a field name used at two depths: each field must be processed by its OWN tag: %+v", *st)
+		}
+		if su.Name != "" || su.Dep != nil || su.ShInner.Name != "inner" || su.ShInner.Dep == nil || su.ShInner.Cus != "custom:vi" {
+			fail("an untagged shallower field of the same name must neither be written nor hide the embedded tagged field: %+v", *su)
+		}
+		// the lazy components are demanded by a lookup after start-up
+		for _, n := range []string{pkg + "/LazyTagged", pkg + "/LazyTaggedDeep"} {
+			if _, err := out.App.GetComponentByName(n); err != nil {
+				fail("lookup of %s failed: %v", n, err)
+			}
+		}
+		if lt.Dep == nil || lt.Val != "lit" || lt.Cus != "custom:v1" {
+			fail("a LazyInit component's tagged fields were not processed when it was demanded: %+v", *lt)
+		}
+		if ld.Dep == nil || ld.Val != "lit" {
+			fail("a component that embeds the LazyInit marker one level down was not processed when demanded: %+v", *ld)
+		}
+		kit.Rec.Case(fmt.Sprintf("static shadowed names + lazy tagged components, round %d", round%2), true, "static-shadow-lazy")
 	}
 }
